@@ -500,7 +500,8 @@ class Mutator:
                 if new is NotImplemented:
                     continue
                 setattr(owner, field, new)
-                s.mutated('setprim', f'prim.{kind}.{field}', [s.site(owner, field, 'self')], f'{kind}.{field} = {new!r}')
+                eqv = typ == 'constant' and new == val and type(new) is not type(val)   # e.g. True -> 1, 1 -> 1.0
+                s.mutated('setprim_eq' if eqv else 'setprim', f'prim.{kind}.{field}', [s.site(owner, field, 'self')], f'{kind}.{field} = {new!r}')
                 return True
         return False
 
@@ -513,6 +514,8 @@ class Mutator:
                 return f'mod{rng.randrange(50)}'
             return rng.choice([f'id{rng.randrange(50)}', val + '_x', 'z'])
         if typ == 'constant':
+            if isinstance(val, (bool, int, float)) and val in (0, 1) and rng.random() < 0.15:
+                return rng.choice([v for v in (bool(val), int(val), float(val)) if type(v) is not type(val)])
             if isinstance(val, bool) or val is None or val is Ellipsis:
                 return rng.choice([v for v in (True, False, None) if v is not val])
             if isinstance(val, int):
